@@ -197,6 +197,7 @@ proof fn lemma_all_scans<'a, T>(t: Seq<(ChordKeys, &'a Action<'a, T>)>, k: Chord
 //@@ no-derives
 //@@ attr #[verifier::reject_recursive_types(T)]
 //@ item keyberon/src/chord.rs const SMOL_Q_LEN
+//@ item keyberon/src/key_code.rs const KEY_MAX
 //@ raw
 /// heapless::Vec<u16, N>: a stub with the ASSUMED contract of new() and of extend() from a copied
 /// slice (R19); extend PANICS past the capacity - that is the precondition
@@ -402,3 +403,73 @@ fn drop_consumed_presses(queue: &mut VQueue, accumulated_presses: &HVec<u16, SMO
             && queue@ == pick(s, d);
         lemma_pick_stays(s, d, accumulated_presses@);
     }
+
+// (4) "keys that do not complete a chord are not swallowed: they are delivered ... in their original
+// order".  While chords are being ignored (after a key left the queue without completing a chord)
+// drain_inputs forwards the whole input queue to the small drain queue (capacity 16).  The first
+// statement of drain_inputs (FRAGMENT, stmt-at).  The contract of `extend` below is what arraydeque
+// 0.5.1 DOES for a Wrapping deque (lib.rs:486: `iter.into_iter().take(capacity - len)`; cross-checked
+// on the real crate by the Kani harness c02_k_arraydeque_wrapping_contract): it takes only what fits
+// and drops the rest of the iterator.  Obligation: nothing is lost - the forwarded events followed
+// by what is still queued are the old drain queue followed by the old input queue.
+//@ raw
+#[verifier::external_body]
+pub struct VSmolQueue { verif_opaque: u8 }
+#[verifier::external_body]
+pub struct VDrain { verif_opaque: u8 }
+impl VDrain { pub uninterp spec fn items(&self) -> Seq<Queued>; }
+impl VSmolQueue {
+    pub uninterp spec fn view(&self) -> Seq<Queued>;
+    /// ArrayDeque<_, 16, Wrapping>: never more than 16 elements
+    #[verifier::external_body]
+    pub proof fn axiom_capacity(&self) ensures self@.len() <= 16 { unimplemented!() }
+    #[verifier::external_body]
+    pub fn capacity(&self) -> (r: usize) ensures r == 16 { unimplemented!() }
+    #[verifier::external_body]
+    pub fn len(&self) -> (r: usize) ensures r == self@.len() { unimplemented!() }
+    /// Extend for a Wrapping ArrayDeque: only `capacity - len` elements are taken from the iterator
+    #[verifier::external_body]
+    pub fn extend(&mut self, it: VDrain)
+        ensures final(self)@ == old(self)@ + (if it.items().len() <= 16 - old(self)@.len() { it.items() } else { it.items().take(16 - old(self)@.len()) }),
+    { unimplemented!() }
+}
+impl VQueue {
+    #[verifier::external_body]
+    pub fn len(&self) -> (r: usize) ensures r == self@.len() { unimplemented!() }
+    /// R49: `.drain(0..)` -> everything, front to back; the queue is left empty
+    #[verifier::external_body]
+    pub fn verif_drain_all(&mut self) -> (r: VDrain)
+        ensures r.items() == old(self)@, final(self)@.len() == 0,
+    { unimplemented!() }
+    /// R49: `.drain(0..n)` -> the first n elements, front to back; the rest stays (panics if n > len)
+    #[verifier::external_body]
+    pub fn verif_drain_front(&mut self, n: usize) -> (r: VDrain)
+        requires n <= old(self)@.len(),
+        ensures r.items() == old(self)@.take(n as int), final(self)@ == old(self)@.skip(n as int),
+    { unimplemented!() }
+}
+// std::cmp::min on usize (ASSUMED std contract)
+pub uninterp spec fn min_spec_of<V>(a: V, b: V) -> V;
+#[verifier::allow(undeclared_external_trait)]
+pub assume_specification<V> [core::cmp::min] (a: V, b: V) -> (r: V)
+    where V: core::cmp::Ord + core::marker::Destruct,
+    ensures r == min_spec_of(a, b);
+#[verifier::external_body]
+broadcast proof fn axiom_min_usize(a: usize, b: usize)
+    ensures #[trigger] min_spec_of::<usize>(a, b) == (if a <= b { a } else { b }),
+{ unimplemented!() }
+//@ fragment keyberon/src/chord.rs fn drain_inputs in `ChordsV2<'a, T>` stmt-at `if self.ticks_to_ignore_chord > 0 {` as forward_while_ignoring_chords
+//@@ header
+fn forward_while_ignoring_chords(queue: &mut VQueue, ticks_to_ignore_chord: u16, drainq: &mut VSmolQueue)
+//@@ resub Rself * /self\.ticks_to_ignore_chord/ => `ticks_to_ignore_chord`
+//@@ resub Rself * /self\.queue/ => `queue`
+//@@ resub Rpath * /std::cmp::min\(/ => `core::cmp::min(`
+//@@ resub R49 * /\.drain\(0\.\.\)/ => `.verif_drain_all()`
+//@@ resub R49 * /\.drain\(0\.\.([^)]+)\)/ => `.verif_drain_front(\1)`
+//@@ spec
+    ensures
+        ticks_to_ignore_chord > 0 ==> final(drainq)@ + final(queue)@ =~= old(drainq)@ + old(queue)@,
+        ticks_to_ignore_chord == 0 ==> final(drainq)@ == old(drainq)@ && final(queue)@ == old(queue)@,
+//@@ after-re 1 /if ticks_to_ignore_chord > 0 \{/
+    proof { drainq.axiom_capacity(); }
+    broadcast use axiom_min_usize;
